@@ -137,6 +137,7 @@ static rc::Gen<Case> genCase() {
         c.with_fail = *rc::gen::weightedElement<bool>({{3, false}, {1, true}});
         vp::Rng trng(c.tseed);
         FamilyOpts fo; fo.allow_fail = c.with_fail; fo.allow_nowrite = false; fo.max_size = 8; fo.max_regs = 5;
+        if (c.tseed % 8 == 7) { fo.max_areas = 6; fo.max_size = 16; fo.max_regs = 12; }   // some larger tables
         c.t = gen_table(trng, fo);
         for (auto &a : c.t.areas) a.skip_defaults = false;
         auto tp = std::make_shared<const TableD>(c.t);   // shared: rapidcheck re-evaluates the element generators lazily while shrinking
